@@ -19,6 +19,7 @@ pub mod c15;
 pub mod c16;
 pub mod c17;
 pub mod c18;
+pub mod c19;
 
 use crate::runner::Property;
 
@@ -42,8 +43,21 @@ pub fn get(id: &str) -> Option<Property> {
         "C16" => Some(c16::property()),
         "C17" => Some(c17::property()),
         "C18" => Some(c18::property()),
+        "C19" => Some(c19::property()),
         _ => None,
     }
 }
 
 pub const ALL: &[&str] = &["C07", "C08", "C09"];
+
+/// Sub-checks run by the Python leg (py/check_py.py): (name, generator and oracle in words, non-triviality rule).
+pub fn external_about(id: &str) -> Vec<(&'static str, &'static str, &'static str)> {
+    match id {
+        "C19" => vec![
+            ("py_apply", "Hypothesis: recursive JSON-representable Python objects (None, bool, ints incl. +-2^63, 2^64, 10^400, finite floats, nan / inf, text incl. astral characters and lone surrogates, lists, dicts with operator keys) and rule-shaped objects, as rule and data of jsonlogic_rs.apply x data {omitted, positional, keyword} x serializer {omitted, json.dumps, compact sorted UTF-8} x deserializer {omitted, json.loads, parse_float=Decimal, identity}; run against the dev and the release build of the extension. Oracle: the library linked into oracle_server evaluates the texts the chosen serializer produces (omitted data = null); the return value must be type-exactly equal to deserializer(answer); a library error or unparsable text must raise ValueError and nothing else.", "an optional argument omitted, an error outcome, non-ASCII text, or a number outside the float-exact integer range."),
+            ("py_apply_serialized", "Hypothesis: JSON texts (json.dumps / compact / indented dumps of generated objects, truncations, 25 malformed texts, number spellings such as 1e0 / 12345678901234567890123) as rule and data of apply_serialized x data {omitted, positional, keyword} x deserializer {omitted, json.loads, parse_float=Decimal, identity}; same oracle; texts that cannot be encoded as UTF-8 must raise UnicodeEncodeError (a ValueError).", "every case."),
+        ],
+        "C01" => vec![("py_total", "Hypothesis: rule-shaped Python objects with extreme leaves (+-2^63, 2^64-1, -1e104, 1.7e308, multi-byte text) plus 16 known corner rules x 4 data through apply and apply_serialized, in the dev (overflow-checked) and release builds of the extension: only ValueError may escape; SystemError (a Rust panic crossing the boundary), any other exception type, or death of the interpreter is a violation.", "an extreme operand (64-bit boundary integer, exponent float, non-ASCII text) or a long rule.")],
+        _ => vec![],
+    }
+}
